@@ -2,5 +2,5 @@ SPECIFICATION Spec
 CONSTANTS
   Mutant = "none"
   MaxSteps = 3
-INVARIANTS Holds NothingRemembered
+INVARIANTS Holds NothingRemembered OperationUnchanged
 CHECK_DEADLOCK FALSE
